@@ -5,6 +5,7 @@ import (
 	"fmt"
 	"math/big"
 	"strings"
+	"time"
 
 	crypt "github.com/sergeymakinen/go-crypt"
 )
@@ -78,6 +79,9 @@ func (k *checkCaseSink) add(s *schemeOps, h, pw string, toCoq bool, kind string)
 			k.cs2.add(term, meta)
 		}
 	}
+	if len(callLog) < 400000 {
+		callLog = append(callLog, loggedCall{s.name, h, pw, verdictDesc(err, pan)})
+	}
 	k.rep.count(s.name+"|"+h+"|"+pw, true)
 	k.rep.bump(s.name + "_" + classNames[classOf(err, pan)])
 	return err, pan
@@ -116,6 +120,181 @@ func numericEdits(h string) []string {
 		i = j
 	}
 	return out
+}
+
+// structuralEdits: edits at the level of the layout rather than of single characters: every fragment dropped,
+// doubled or swapped with its neighbour; inside a comma group every member dropped, doubled (same value, another
+// value, in front, at the end, next to itself), every rotation and the reversal of the members; every key=value
+// fragment or member without its key, with another key, and with an empty value.
+func structuralEdits(h string) []string {
+	var out []string
+	seen := map[string]bool{h: true}
+	emit := func(x string) {
+		if !seen[x] {
+			seen[x] = true
+			out = append(out, x)
+		}
+	}
+	fr := strings.Split(h, "$")
+	join := func(f []string) string { return strings.Join(f, "$") }
+	cp := func(f []string) []string { return append([]string(nil), f...) }
+	otherVal := func(m string) string {
+		if i := strings.IndexByte(m, '='); i >= 0 {
+			v := m[i+1:]
+			if n, ok := new(big.Int).SetString(v, 10); ok {
+				return m[:i+1] + new(big.Int).Add(n, big.NewInt(8)).String()
+			}
+			return m[:i+1] + v + "0"
+		}
+		return m + "0"
+	}
+	keyEdits := func(m string) []string {
+		i := strings.IndexByte(m, '=')
+		if i < 0 {
+			return nil
+		}
+		return []string{m[i+1:], m[:i+1], "x" + m, m[:i] + "x" + m[i:], strings.ToUpper(m[:i]) + m[i:], m[:i] + "==" + m[i+1:], m + "=" + m[i+1:]}
+	}
+	for i := range fr {
+		if i > 0 {
+			f := cp(fr)
+			emit(join(append(f[:i], f[i+1:]...)))
+			f = cp(fr)
+			f = append(f[:i+1], append([]string{fr[i]}, fr[i+1:]...)...)
+			emit(join(f))
+			if i+1 < len(fr) {
+				f = cp(fr)
+				f[i], f[i+1] = f[i+1], f[i]
+				emit(join(f))
+			}
+		}
+		for _, e := range keyEdits(fr[i]) {
+			if !strings.Contains(fr[i], ",") {
+				f := cp(fr)
+				f[i] = e
+				emit(join(f))
+			}
+		}
+		if strings.Contains(fr[i], "=") && !strings.Contains(fr[i], ",") {
+			f := cp(fr)
+			f[i] = otherVal(fr[i])
+			emit(join(f))
+			f[i] = fr[i] + "," + fr[i]
+			emit(join(f))
+			f[i] = fr[i] + "," + otherVal(fr[i])
+			emit(join(f))
+		}
+		ms := strings.Split(fr[i], ",")
+		if len(ms) < 2 {
+			continue
+		}
+		set := func(m []string) {
+			f := cp(fr)
+			f[i] = strings.Join(m, ",")
+			emit(join(f))
+		}
+		for k := range ms {
+			m := cp(ms)
+			set(append(m[:k], m[k+1:]...))
+			for _, dup := range []string{ms[k], otherVal(ms[k])} {
+				set(append([]string{dup}, ms...))
+				set(append(cp(ms), dup))
+				m = cp(ms)
+				set(append(m[:k+1], append([]string{dup}, ms[k+1:]...)...))
+				m = cp(ms)
+				set(append(m[:k], append([]string{dup}, ms[k:]...)...))
+			}
+			for _, e := range keyEdits(ms[k]) {
+				m = cp(ms)
+				m[k] = e
+				set(m)
+			}
+			set(append(cp(ms[k:]), ms[:k]...))
+			// the group split into two fragments at this member
+			if k > 0 {
+				f := cp(fr)
+				f[i] = strings.Join(ms[:k], ",") + "$" + strings.Join(ms[k:], ",")
+				emit(join(f))
+			}
+		}
+		rev := cp(ms)
+		for a, b := 0, len(rev)-1; a < b; a, b = a+1, b-1 {
+			rev[a], rev[b] = rev[b], rev[a]
+		}
+		set(rev)
+	}
+	return out
+}
+
+// fieldSweeps: every decimal field of the hash (as in numericEdits) rewritten over the codec's whole symbol
+// alphabet "./0-9A-Za-z": all texts of the field's length for fields of one or two symbols, every single-symbol
+// substitution for longer ones.  A symbol that is not a decimal digit must make the string malformed, whatever
+// arithmetic the field's parser does with it.
+func fieldSweeps(h string) []string {
+	var out []string
+	for i := 0; i < len(h); i++ {
+		if !(h[i] >= '0' && h[i] <= '9') || (i > 0 && !strings.ContainsRune("$,=", rune(h[i-1]))) {
+			continue
+		}
+		j := i
+		for j < len(h) && h[j] >= '0' && h[j] <= '9' {
+			j++
+		}
+		if j < len(h) && h[j] != '$' && h[j] != ',' || j-i > 10 {
+			i = j
+			continue
+		}
+		switch j - i {
+		case 1:
+			for a := 0; a < 64; a++ {
+				out = append(out, h[:i]+alphaCrypt[a:a+1]+h[j:])
+			}
+		case 2:
+			for a := 0; a < 64; a++ {
+				for b := 0; b < 64; b++ {
+					out = append(out, h[:i]+alphaCrypt[a:a+1]+alphaCrypt[b:b+1]+h[j:])
+				}
+			}
+		default:
+			for k := i; k < j; k++ {
+				for a := 0; a < 64; a++ {
+					out = append(out, h[:k]+alphaCrypt[a:a+1]+h[k+1:])
+				}
+			}
+		}
+		i = j
+	}
+	return out
+}
+
+// tooExpensive: a well-formed string whose stated cost is beyond what a check run can afford to derive
+func tooExpensive(name string, rc recog) bool {
+	if !rc.ok {
+		return false
+	}
+	lim := map[string][]int64{"bcrypt": {8}, "sha256": {300000}, "sha512": {300000}, "sha1": {400000}, "sunmd5": {200000},
+		"desext": {1 << 21}, "argon2": {1 << 16, 8, 64}}[name]
+	for k, l := range lim {
+		if k < len(rc.p.nums) && rc.p.nums[k] > l {
+			return true
+		}
+	}
+	return false
+}
+
+// checkTimed: Check under a wall-clock limit (for strings the recogniser rejects: nothing may be derived for them)
+func checkTimed(s *schemeOps, h, pw string, d time.Duration) (returned bool) {
+	done := make(chan struct{})
+	go func() {
+		defer close(done)
+		checkWatch(s, h, pw)
+	}()
+	select {
+	case <-done:
+		return true
+	case <-time.After(d):
+		return false
+	}
 }
 
 // edits1 enumerates every string at edit distance 1 (substitution, deletion, insertion) under the alphabet,
@@ -215,19 +394,26 @@ func corrC06(outDir string, seed uint64, tier string, replay string) *report {
 					}
 				}
 			}
+			judge1 := func(h, p, kind string) {
+				n++
+				every := coqEvery
+				if kind == "field_sweep" {
+					every = 16 * coqEvery
+				}
+				err, pan := sink.add(s, h, p, n%every == 0 || kind == "canonical", kind)
+				want, skip := expectClass(s, h, p)
+				if skip {
+					return
+				}
+				if got := classOf(err, pan); got != want {
+					rep.fail(map[string]interface{}{"scheme": s.name, "hash": h, "password": p}, classNames[want], classNames[got]+": "+fmt.Sprint(err, pan),
+						"verification classifies the string differently from the layout recogniser")
+				}
+			}
 			judge := func(h, kind string) {
 				judgeParams(h)
 				for _, p := range []string{pw, pw + "x"} {
-					n++
-					err, pan := sink.add(s, h, p, n%coqEvery == 0 || kind == "canonical", kind)
-					want, skip := expectClass(s, h, p)
-					if skip {
-						continue
-					}
-					if got := classOf(err, pan); got != want {
-						rep.fail(map[string]interface{}{"scheme": s.name, "hash": h, "password": p}, classNames[want], classNames[got]+": "+fmt.Sprint(err, pan),
-							"verification classifies the string differently from the layout recogniser")
-					}
+					judge1(h, p, kind)
 				}
 			}
 			for _, h := range canon {
@@ -250,6 +436,23 @@ func corrC06(outDir string, seed uint64, tier string, replay string) *report {
 				for _, e := range numericEdits(h) {
 					judge(e, "numeric_overflow")
 				}
+				for _, e := range structuralEdits(h) {
+					judge(e, "structural")
+				}
+				sweepOK := true
+				for _, e := range fieldSweeps(h) {
+					rc := recognise(s.name, e)
+					if rc.skip || tooExpensive(s.name, rc) || !sweepOK {
+						continue
+					}
+					if !rc.ok && !checkTimed(s, e, pw, 5*time.Second) {
+						rep.fail(map[string]interface{}{"scheme": s.name, "hash": e, "password": pw}, "prompt rejection (the layout recogniser rejects the string)",
+							"Check did not return within 5 s", "a malformed or out-of-range string is not rejected promptly (a cost was derived from a non-numeric field?)")
+						sweepOK = false
+						continue
+					}
+					judge1(e, pw, "field_sweep")
+				}
 				judge(h+"$", "trailing")
 				judge(h+"$$", "trailing")
 				judge(h+",", "trailing")
@@ -262,6 +465,9 @@ func corrC06(outDir string, seed uint64, tier string, replay string) *report {
 			}
 			// all short strings (the scheme must reject them all)
 			allStrings("$,_=a1", 3, func(t string) { judge(t, "short") })
+			// the verdict on a string is a function of the string and the password, not of what was verified before:
+			// a sample of the calls above is repeated in another order and must return what it returned the first time
+			replayHistory(rep, s, r)
 		}
 	})
 	must(cs.flush())
@@ -271,4 +477,59 @@ func corrC06(outDir string, seed uint64, tier string, replay string) *report {
 	rep.ExhaustiveSpaces = append(rep.ExhaustiveSpaces, fmt.Sprintf("per scheme: every string at edit distance 1 (alphabet %q) from %d canonical hash(es), all truncations, all strings of length <= 3 over {$ , _ = a 1}; x {right, wrong} password", alpha, nCanon))
 	rep.Rule = "Check(hash, password) three-way class (nil / mismatch / other) vs the independent layout recogniser + re-derived digest (property oracle); full verdict (codec error projection or typed key error with its value) vs the Coq scheme model with the derivation supplied as a table obtained through Params+Key. Params/Salt: on recognised strings they return the recognised values; on the others success/failure is consistent with Check (never a mere mismatch for a string they reject). Every case is non-trivial; distinct by (scheme, hash, password)."
 	return rep
+}
+
+type loggedCall struct{ scheme, h, pw, verdict string }
+
+var callLog []loggedCall
+
+// replayHistory repeats a sample of the scheme's logged Check calls in a pseudo-random order (each preceded by a
+// different earlier call than the first time) and compares the full verdict with the first answer.
+func replayHistory(rep *report, s *schemeOps, r *rng) {
+	var mine []loggedCall
+	for _, c := range callLog {
+		if c.scheme == s.name {
+			mine = append(mine, c)
+		}
+	}
+	callLog = callLog[:0]
+	if len(mine) == 0 {
+		return
+	}
+	// all ordered pairs of a few well-formed strings of different shapes: b right after a must answer as b did before
+	var wf []loggedCall
+	shapes := map[string]bool{}
+	for _, want := range []string{"VMatch", "VMismatch"} {
+		for _, c := range mine {
+			shape := fmt.Sprint(strings.Count(c.h, "$"), strings.Count(c.h, ","), strings.Count(c.h, "="), len(c.h), c.verdict)
+			if c.verdict == want && !shapes[shape] && len(wf) < 14 {
+				shapes[shape] = true
+				wf = append(wf, c)
+			}
+		}
+	}
+	for _, a := range wf {
+		for _, b := range wf {
+			checkWatch(s, a.h, a.pw)
+			err, pan := checkWatch(s, b.h, b.pw)
+			if got := verdictDesc(err, pan); got != b.verdict {
+				rep.fail(map[string]interface{}{"scheme": s.name, "hash": b.h, "password": b.pw, "verified_just_before": a.h, "password_before": a.pw},
+					b.verdict+" (what this call returned earlier in the process, after other calls)", got, "the verdict on a string depends on which string was verified before it")
+			}
+			rep.bump("history_pairs")
+		}
+	}
+	n := len(mine) / 4
+	if n > 1500 {
+		n = 1500
+	}
+	for i := 0; i < n; i++ {
+		c := mine[r.intn(len(mine))]
+		err, pan := checkWatch(s, c.h, c.pw)
+		if got := verdictDesc(err, pan); got != c.verdict {
+			rep.fail(map[string]interface{}{"scheme": s.name, "hash": c.h, "password": c.pw, "history": "the same call returned " + c.verdict + " earlier in this process"},
+				c.verdict, got, "the verdict on a string depends on which strings were verified before it")
+		}
+		rep.bump("history_replays")
+	}
 }
